@@ -138,6 +138,7 @@ def analyze(src, do_exec=True):
                             elif k.arg:
                                 kw[k.arg] = "<expr>"
                         f["field_kw"] = kw
+                        f["field_kw_src"] = {k.arg: value_src(src, k.value) for k in st.value.keywords if k.arg}
                     c["fields"].append(f)
                 elif isinstance(st, ast.Assign) and len(st.targets) == 1 and isinstance(st.targets[0], ast.Name):
                     m = {"name": st.targets[0].id, "line": st.lineno, "value_src": value_src(src, st.value)}
